@@ -76,6 +76,7 @@ func cmdSweep(args []string) {
 	dump := fs.String("dump", "", "directory for SMT files of failed queries")
 	tier := fs.String("tier", "quick", "")
 	verbose := fs.Bool("v", false, "")
+	nosolve := fs.Bool("nosolve", false, "")
 	root := fs.String("repo", repoRoot, "")
 	fs.Parse(args)
 	t0 := time.Now()
@@ -109,6 +110,9 @@ func cmdSweep(args []string) {
 		}
 	}
 	fmt.Printf("generated %d queries (%d trivial) in %.1fs\n", len(x.queries), len(x.trivial), time.Since(t0).Seconds())
+	if *nosolve {
+		x.queries = nil
+	}
 	res := x.dischargeAll(x.queries, *tier, 16)
 	agg := aggregate(res)
 	fail := 0
